@@ -190,9 +190,12 @@ impl<I: Iterator> Iterator for Hinted<I> {
 }
 
 /// the record behind `TVal::Record`
-pub fn example_record() -> &'static Enr<k256::ecdsa::SigningKey> {
-    static R: std::sync::OnceLock<Enr<k256::ecdsa::SigningKey>> = std::sync::OnceLock::new();
-    R.get_or_init(|| Enr::decode(&mut crate::case::example_record_bytes()).expect("the committed example record decodes"))
+pub fn example_record() -> &'static Enr<crate::keys::ExampleKey> {
+    static R: std::sync::OnceLock<Enr<crate::keys::ExampleKey>> = std::sync::OnceLock::new();
+    #[cfg(feature = "builtin")]
+    return R.get_or_init(|| Enr::decode(&mut crate::case::example_record_bytes()).expect("the committed example record decodes"));
+    #[cfg(not(feature = "builtin"))]
+    return R.get_or_init(|| Enr::builder().udp4(1).build(&crate::keys::TinyKey([9u8; 32], FamId::Tiny)).expect("example record"));
 }
 
 impl Encodable for ItemEnc {
@@ -632,10 +635,10 @@ pub fn run_history<V: Visitor>(h: &History, force_fault: bool, v: &mut V) -> Res
         };
     }
     match h.fam {
-        FamId::K256 => go!(k256::ecdsa::SigningKey),
+        FamId::K256 => go!(crate::keys::K256Key),
         FamId::Libsecp => go!(crate::keys::LibsecpKey),
-        FamId::Ed => go!(ed25519_dalek::SigningKey),
-        FamId::CombinedSecp | FamId::CombinedEd => go!(enr::CombinedKey),
+        FamId::Ed => go!(crate::keys::EdKey),
+        FamId::CombinedSecp | FamId::CombinedEd => go!(crate::keys::CombKey),
         FamId::Var | FamId::Wide => go!(VarKey),
         FamId::Tiny | FamId::Mid | FamId::Nano | FamId::Big | FamId::Clash => go!(crate::keys::TinyKey),
     }
@@ -739,10 +742,10 @@ fn run_blind_typed<K: Fam>(h: &History, upto: usize, order: u8) -> Result<Option
 /// cannot be run (invalid keys, no initial record, a panic: other checks deal with those).
 pub fn run_blind(h: &History, upto: usize, order: u8) -> Result<Option<(Vec<CallRes>, Cold)>, String> {
     match h.fam {
-        FamId::K256 => run_blind_typed::<k256::ecdsa::SigningKey>(h, upto, order),
+        FamId::K256 => run_blind_typed::<crate::keys::K256Key>(h, upto, order),
         FamId::Libsecp => run_blind_typed::<crate::keys::LibsecpKey>(h, upto, order),
-        FamId::Ed => run_blind_typed::<ed25519_dalek::SigningKey>(h, upto, order),
-        FamId::CombinedSecp | FamId::CombinedEd => run_blind_typed::<enr::CombinedKey>(h, upto, order),
+        FamId::Ed => run_blind_typed::<crate::keys::EdKey>(h, upto, order),
+        FamId::CombinedSecp | FamId::CombinedEd => run_blind_typed::<crate::keys::CombKey>(h, upto, order),
         FamId::Var | FamId::Wide => run_blind_typed::<VarKey>(h, upto, order),
         FamId::Tiny | FamId::Mid | FamId::Nano | FamId::Big | FamId::Clash => run_blind_typed::<crate::keys::TinyKey>(h, upto, order),
     }
